@@ -136,3 +136,40 @@ Proof.
   destruct (orphans_stay_orphans_all f gid gpl hs hs' (id r) r Hg Hn Hb Hst) as (r' & Hr' & Hs' & _).
   exists r'. split; assumption.
 Qed.
+
+(* ---- executable oracle for observed tables: close the set of descendants under the parent relation, all ORPHAN ---- *)
+From BHS Require Import SyncSpec.
+
+Lemma memN_In i l : memN i l = true <-> In i l.
+Proof.
+  unfold memN. rewrite existsb_exists. split.
+  - intros (x & Hx & E). apply N.eqb_eq in E. subst. exact Hx.
+  - intros H. exists i. split; [exact H| apply N.eqb_refl].
+Qed.
+
+Lemma iter_desc_sound f s : forall n d,
+  (forall i, In i d -> exists r, In r s /\ id r = i /\ desc_forb f s r) ->
+  forall i, In i (iter_desc f (rows_of s) n d) -> exists r, In r s /\ id r = i /\ desc_forb f s r.
+Proof.
+  induction n as [|n IH]; intros d Hd i Hi; [exact (Hd i Hi)|].
+  cbn [iter_desc] in Hi. apply (IH (step_desc f (rows_of s) d)); [|exact Hi].
+  clear i Hi. intros i Hi. unfold step_desc in Hi. apply in_map_iff in Hi. destruct Hi as (o & <- & Ho).
+  apply filter_In in Ho. destruct Ho as [Ho Hc]. unfold rows_of in Ho. apply in_map_iff in Ho.
+  destruct Ho as (r & <- & Hr). cbn in Hc |- *. exists r. split; [exact Hr|]. split; [reflexivity|].
+  apply orb_true_iff in Hc. destruct Hc as [Hc|Hc].
+  - apply df_child; assumption.
+  - apply memN_In in Hc. destruct (Hd _ Hc) as (p & Hp & Hid & Hdp). apply (df_step f s r p); assumption.
+Qed.
+
+Theorem desc_orphan_all_inv f s tip : Inv s tip -> no_forb f s -> memN 0%N f = false ->
+  spec_desc_orphan_all f (rows_of s) = true.
+Proof.
+  intros HI Hs Hz. unfold spec_desc_orphan_all. apply forallb_forall. intros o Ho.
+  unfold rows_of in Ho. apply in_map_iff in Ho. destruct Ho as (r & <- & Hr). cbn [o_id o_st].
+  destruct (memN (id r) _) eqn:Hm; [|reflexivity].
+  apply memN_In in Hm. fold (rows_of s) in Hm.
+  destruct (iter_desc_sound f s _ [] (fun i (H : In i []) => match H with end) _ Hm) as (r' & Hr' & Hid & Hd).
+  assert (r' = r) by (apply (wf_ids_unique s); [apply HI| exact Hr'| exact Hr| exact Hid]). subst r'.
+  assert (Ho: orph r = true) by (apply (desc_forb_orph f s); [apply HI| exact Hs| exact Hz| exact Hd]).
+  apply (st_O_iff _ tip r HI Hr) in Ho. rewrite Ho. reflexivity.
+Qed.
